@@ -56,6 +56,8 @@ def mcase(c):
         # empty selection: the kernels return the input trace with accept = True
         same = all(Fraction(f[0], f[1]) == Fraction(x) for f, x in zip(c["final"], c["xs"]))
         return f"CMh (0#1)%Q (-1#1)%Q {b(c['accept'])} {b(same)} false true"
+    if c.get("coherent") is False:
+        return "CMh (0#1)%Q (0#1)%Q true false false false"      # the kernel returned an incoherent trace: cannot pass
     if "err" in c or (c["kind"] != "mh" and c.get("log_alpha") is None):
         return "CMh (0#1)%Q (0#1)%Q true false false false"      # cannot pass
     if c["kind"] == "mh":
@@ -69,17 +71,17 @@ def mcase(c):
     return f"CHmc {head} {coqgen.n(c['nsteps'])} {ql(c['noise'])} {q(c['logu'])} {obs}"
 
 
-def run(ctx):
-    n = 100 if ctx.tier == "quick" else 1000
-    shards = 4 if ctx.tier == "quick" else 12
+def kernel_stream(ctx, n, shards, tag="mc", seed_shift=0):
+    """run worker_mcmc (mala / hmc / mh cases) and judge the cases with Model/CorrMcmc.v; also used by C05
+    (histories that contain kernel applications: frame and coherence of the resulting trace)"""
     root = ctx.ensure_overlay()
     env = overlay.env_for(root)
     env["PYTHONPATH"] = root + os.pathsep + common.HARNESS
     procs = []
     for k in range(shards):
-        out = os.path.join(ctx.scratch, f"mc_{k}.json")
+        out = os.path.join(ctx.scratch, f"{tag}_{k}.json")
         procs.append((out, subprocess.Popen([common.PY, os.path.join(common.HARNESS, "worker_mcmc.py"), out,
-                                             str(ctx.seed * 100 + k), str((n + shards - 1) // shards)],
+                                             str(ctx.seed * 100 + k + seed_shift), str((n + shards - 1) // shards)],
                                             env=env, stdout=subprocess.PIPE, stderr=subprocess.PIPE, text=True,
                                             cwd=ctx.scratch)))
     cases, files, worker_errs = [], [], []
@@ -89,7 +91,7 @@ def run(ctx):
             worker_errs.append(se[-1500:])
             continue
         cs = json.load(open(out))
-        vf = os.path.join(ctx.scratch, f"cases_mc_{k}.v")
+        vf = os.path.join(ctx.scratch, f"cases_{tag}_{k}.v")
         open(vf, "w").write("From Coq Require Import QArith List. Import ListNotations.\n"
                             "From GV Require Import Model.Gfi Model.Mcmc Model.CorrMcmc.\n"
                             "Definition cases : list mcase := [\n"
@@ -105,6 +107,13 @@ def run(ctx):
             coq_errs.append(r["error"])
         else:
             bad += [(off + i, a, s, x) for (i, a, s, x) in r["bad"]]
+    return cases, bad, worker_errs, coq_errs
+
+
+def run(ctx):
+    n = 100 if ctx.tier == "quick" else 1000
+    shards = 4 if ctx.tier == "quick" else 12
+    cases, bad, worker_errs, coq_errs = kernel_stream(ctx, n, shards)
     nt = len({json.dumps({k: v for k, v in c.items() if k not in ("final", "log_alpha", "accept")}, sort_keys=True)
               for c in cases if "err" not in c and (c["kind"] == "mh" or len(c["order"]) >= 1)})
     # the weight mh accepts with is regenerate's: mixture-shaped programs (an indicator site feeding a Cond
